@@ -969,18 +969,50 @@ func (s *Session) analyzeLoops() {
 		}
 	}
 	if s.con != nil {
-		for _, ls := range s.con.Loops {
-			var li *loopInfo
+		// A loop clause names its loop by ordinal and by header text. Binding: the loop with that ordinal
+		// if its text agrees; else the unique loop with that text (loops were inserted or removed before
+		// it); else the ordinal (the header was rewritten): the invariants then stand or fall on their own.
+		claimed := map[*loopInfo]bool{}
+		byOrd := func(n int) *loopInfo {
 			for _, h := range heads {
-				if s.loops[h].ord == ls.N {
-					li = s.loops[h]
+				if s.loops[h].ord == n {
+					return s.loops[h]
 				}
 			}
-			if li == nil {
-				fatalf("%s:%d: contract names loop %d but %s has %d loops", s.con.File, ls.Line, ls.N, s.name, len(heads))
+			return nil
+		}
+		bound := map[*LoopSpec]*loopInfo{}
+		for _, ls := range s.con.Loops {
+			if li := byOrd(ls.N); li != nil && (ls.Text == "" || li.text == "" || ls.Text == li.text) {
+				bound[ls] = li
+				claimed[li] = true
 			}
-			if ls.Text != "" && li.text != "" && ls.Text != li.text {
-				fatalf("%s:%d: loop %d of %s is %q in the source, the contract expects %q", s.con.File, ls.Line, ls.N, s.name, li.text, ls.Text)
+		}
+		for _, ls := range s.con.Loops {
+			if bound[ls] != nil {
+				continue
+			}
+			var cands []*loopInfo
+			for _, h := range heads {
+				if li := s.loops[h]; !claimed[li] && li.text == ls.Text {
+					cands = append(cands, li)
+				}
+			}
+			if len(cands) == 1 {
+				bound[ls] = cands[0]
+				claimed[cands[0]] = true
+				s.note(fmt.Sprintf("loop clause %d %q bound by header text to loop %d", ls.N, ls.Text, cands[0].ord))
+			}
+		}
+		for _, ls := range s.con.Loops {
+			li := bound[ls]
+			if li == nil {
+				li = byOrd(ls.N)
+				if li == nil || claimed[li] {
+					fatalf("%s:%d: contract names loop %d %q but %s has %d loops and none matches", s.con.File, ls.Line, ls.N, ls.Text, s.name, len(heads))
+				}
+				claimed[li] = true
+				s.note(fmt.Sprintf("loop clause %d: header is %q in the source, the contract says %q (bound by ordinal)", ls.N, li.text, ls.Text))
 			}
 			li.spec = ls
 			ls.used = true
